@@ -19,7 +19,7 @@ import ast
 from typing import Any
 
 from .context import Analysis
-from .loader import EXECUTED, FuncInfo, const_eval
+from .loader import EXECUTED, FuncInfo, const_eval, dotted
 from .minieval import MiniEval, Obj, Raised, Unsupported, _Break, _Continue, _Return
 
 
@@ -304,6 +304,10 @@ class ModelInterp(MiniEval):
 
     def call(self, e: ast.Call, env: dict) -> Any:
         f = e.func
+        if dotted(f) in ('reduce', 'functools.reduce') and 'reduce' not in env and 'functools' not in env and 'reduce' not in self.globals:
+            import functools
+            args, kwargs = self._args(e, env)
+            return functools.reduce(self.as_callable(args[0]), *args[1:], **kwargs)
         # super().m(...)
         if isinstance(f, ast.Attribute) and isinstance(f.value, ast.Call) and isinstance(f.value.func, ast.Name) \
                 and f.value.func.id == 'super':
@@ -711,8 +715,11 @@ class ExitStackM:
                 interp.as_callable(fn)(*args, **kwargs)
 
 
+import operator as _operator  # noqa: E402
 import keyword as _keyword  # noqa: E402  (pure, total predicates of the standard library: safe to answer for)
 
 _EXTERNAL: dict[str, Any] = {'contextlib.ExitStack': Hook(lambda: ExitStackM()), 'contextlib.suppress': Hook(lambda *classes: SuppressM(classes)),
+                             'operator': Hook(None, iadd=Hook(_operator.iadd), add=Hook(_operator.add), mul=Hook(_operator.mul), or_=Hook(_operator.or_),
+                                              and_=Hook(_operator.and_), eq=Hook(_operator.eq), itemgetter=Hook(_operator.itemgetter)),
                              'keyword': Hook(None, iskeyword=Hook(_keyword.iskeyword), issoftkeyword=Hook(_keyword.issoftkeyword),
                                              kwlist=list(_keyword.kwlist), softkwlist=list(_keyword.softkwlist))}
